@@ -9,7 +9,8 @@ RS = ['fn m() { foo(1); }\n', 'fn n() { bar(); foo(2, 3); }\n']
 HTML = ['<div><script>foo(1); bar()</script></div>\n', '<p>foo</p>\n', '<style>a { color: red }</style><script>foo(9)</script>\n']
 RULES = {
     'js-foo': {'id': 'js-foo', 'language': 'JavaScript', 'rule': {'pattern': 'foo($$$A)'}, 'message': 'js $$$A'},
-    'py-foo': {'id': 'py-foo', 'language': 'Python', 'rule': {'pattern': 'foo($$$A)'}, 'severity': 'warning'},
+    'py-foo': {'id': 'py-foo', 'language': 'Python', 'rule': {'pattern': 'foo($$$A)'}, 'severity': 'warning', 'ignores': ['nothing/**']},
+    'rs-foo-glob': {'id': 'rs-foo-glob', 'language': 'Rust', 'rule': {'pattern': 'bar($$$A)'}, 'files': ['**/*.rs']},
     'rs-foo': {'id': 'rs-foo', 'language': 'Rust', 'rule': {'pattern': 'foo($$$A)'}},
     'css-decl': {'id': 'css-decl', 'language': 'Css', 'rule': {'kind': 'declaration'}},
 }
@@ -41,6 +42,8 @@ def modes(work):
     return [('run', lambda: ['run', '-p', 'foo($$$A)', '-l', 'js', '--json=stream']),
             # language inferred per file: the pattern is compiled per language, html hosts get their <script> searched
             ('run-infer', lambda: ['run', '-p', 'foo($$$A)', '--json=stream']),
+            # entity tracing writes one line per file to stderr under a lock shared by the walker threads
+            ('run-inspect', lambda: ['run', '-p', 'foo($$$A)', '-l', 'js', '--json=stream', '--inspect', 'entity']),
             ('scan', lambda: ['scan', '-c', os.path.join(work, 'sgconfig.yml'), '--json=stream'])]
 
 
@@ -106,7 +109,7 @@ def run_big_tree(rep, ctx, work, rng):
         files[os.path.join(rng.choice(['', 'a', 'b/c']), f'g{i}.js')] = rng.choice(JS) + ('// ' + 'x' * rng.randint(0, 200) + '\n')
     d = os.path.join(work, 'big')
     common.write_tree(d, files)
-    name, argv = modes(work)[0]
+    name, argv = modes(work)[rng.choice([0, 3])]
     expected = single_file_runs(argv, files, d)
     want = sorted(x for p, v in expected.items() if v for x in v)
     eligible = sorted(files)
@@ -253,7 +256,7 @@ def run_tree(rep, ctx, work, k, rng):
                 for root, dirs, fs in os.walk(dd):
                     os.chmod(root, 0o755)
             want = sorted(x for p, v in expected.items() if v and p not in plan for x in v)
-            eligible = [p for p in files if p not in plan and (mname != 'run' or p.endswith('.js')) and not p.endswith('.txt')]
+            eligible = [p for p in files if p not in plan and (mname not in ('run', 'run-inspect') or p.endswith('.js')) and not p.endswith('.txt')]
             for t in threads:
                 for r in range(reps):
                     log = os.path.join(work, f'log-{k}-{mname}-{fname}-{t}-{r}.jsonl')
